@@ -5,6 +5,8 @@ import (
 	"context"
 	"errors"
 	"io"
+	"runtime"
+	"sync/atomic"
 
 	astits "github.com/asticode/go-astits"
 )
@@ -24,8 +26,14 @@ type chunkReader struct {
 	eofWithData bool
 }
 
+// yieldInRead makes every Read give way to other goroutines first (C16: instances interleaved between two reads)
+var yieldInRead atomic.Bool
+
 func (c *chunkReader) Read(p []byte) (int, error) {
 	c.reads++
+	if yieldInRead.Load() {
+		runtime.Gosched()
+	}
 	if c.fault >= 0 && c.pos >= c.fault {
 		return 0, errInjected
 	}
